@@ -56,7 +56,16 @@ const SPECIAL_KEYS: &[&str] = &["", "1", "1.5", "true", "null", "~", "-", "a b",
 fn doc(r: &mut Rng, cfg: &GenCfg, table: bool) -> (V, bool, bool) {
 	let mut special = false;
 	let mut empty = false;
-	let v = if r.chance(1, 8) {
+	let v = if r.chance(1, 150) {
+		// Collections whose member count needs a wide MessagePack header (array/map 16 and 32),
+		// with counts around every byte boundary of the length field.
+		let n = *r.pick(&[255usize, 256, 4096, 32767, 32768, 33000, 40000, 49151, 49152, 65535, 65536, 66000]) + r.range(0, 2);
+		if table || r.chance(1, 2) {
+			V::M((0..n).map(|i| (V::S(format!("k{i}")), V::I((i % 100) as i64))).collect())
+		} else {
+			V::A((0..n).map(|i| V::I((i % 120) as i64 - 20)).collect())
+		}
+	} else if r.chance(1, 8) {
 		// Collections with 16..40 members (array 16 / map 16 headers in MessagePack), mostly
 		// of values that encode to a single byte.
 		let n = r.range(16, 40);
